@@ -103,6 +103,7 @@ pub fn kf_strategy(allow_default_body: bool) -> impl Strategy<Value = KfArg> {
         2 => Just(KfPos::From),
         2 => Just(KfPos::To),
         5 => numlit_strategy(100, true).prop_filter("pct <= 100", |l| l.value <= 100.0).prop_map(KfPos::Pct),
+        1 => prop::sample::select(vec![("0", 0.0), ("100", 100.0), ("0.0", 0.0), ("100.0", 100.0)]).prop_map(|(t, v)| KfPos::Pct(NumLit { text: t.to_string(), value: v })),
     ];
     let fields = prop::collection::vec(any::<bool>(), 4).prop_flat_map(|mask| {
         let picks: Vec<usize> = mask.iter().enumerate().filter(|(_, m)| **m).map(|(i, _)| i).collect();
@@ -142,7 +143,7 @@ pub fn sentence_strategy(allow_default_body: bool, exact_units: bool) -> impl St
             })
             .boxed()
     };
-    let rep = prop_oneof![3 => (1u32..=5).prop_map(Arg::Times), 1 => Just(Arg::Times(1000)), 2 => Just(Arg::Infinite)];
+    let rep = prop_oneof![3 => (1u32..=5).prop_map(Arg::Times), 1 => prop::sample::select(vec![1000u32, 16_777_216, 16_777_217, 33_554_435, u32::MAX - 1, u32::MAX]).prop_map(Arg::Times), 2 => Just(Arg::Infinite)];
     let kfs = prop::collection::vec(kf_strategy(allow_default_body), 0..=5);
     (
         prop::option::weighted(0.8, dur),
@@ -222,6 +223,30 @@ pub fn field_text(prop: usize, v: f64) -> String {
     }
 }
 
+thread_local! {
+    /// when set, f32 field values are printed as expressions over the caller's local variables
+    /// `delay` (= 8.0) and `duration` (= 4.0), which the generated function declares
+    static WITH_VARS: std::cell::Cell<bool> = const { std::cell::Cell::new(false) };
+}
+
+pub fn with_vars<T>(on: bool, f: impl FnOnce() -> T) -> T {
+    WITH_VARS.with(|w| w.set(on));
+    let r = f();
+    WITH_VARS.with(|w| w.set(false));
+    r
+}
+
+fn field_text_v(prop: usize, v: f64) -> String {
+    if WITH_VARS.with(|w| w.get()) {
+        match prop {
+            0 => return format!("delay * {}", field_text(0, v / 8.0)),
+            1 => return format!("duration * {} + delay * 0.0", field_text(1, v / 4.0)),
+            _ => {}
+        }
+    }
+    field_text(prop, v)
+}
+
 pub fn print_kf(k: &KfArg) -> String {
     let pos = match &k.pos {
         KfPos::From => "from".to_string(),
@@ -231,7 +256,7 @@ pub fn print_kf(k: &KfArg) -> String {
     if k.default_body {
         return format!("{pos} default");
     }
-    let body: Vec<String> = k.fields.iter().map(|(p, v)| format!("{}: {}", PROP_NAMES[*p], field_text(*p, *v))).collect();
+    let body: Vec<String> = k.fields.iter().map(|(p, v)| format!("{}: {}", PROP_NAMES[*p], field_text_v(*p, *v))).collect();
     format!("{pos} {{ {} }}", body.join(", "))
 }
 
@@ -375,7 +400,15 @@ fn pos_program(cases: &[C15Case]) -> (String, Vec<u32>) {
         lines.push(line);
         let merged = c.sentences.len() > 1 || c.bracket_single;
         let ty = if merged && !(c.sentences.len() == 1) { "MergedTimeline<PTimeline>" } else { "PTimeline" };
-        src += &format!("fn m_{i}() -> {ty} {{ timeline!(P {}) }}\n", print_behavior(&c.sentences, c.bracket_single));
+        // every third case: keyframe values are expressions over caller locals named `delay` and
+        // `duration` (the macro's expansion must not capture or shadow the caller's identifiers)
+        let vars = i % 3 == 2;
+        let text = with_vars(vars, || print_behavior(&c.sentences, c.bracket_single));
+        if vars {
+            src += &format!("fn m_{i}() -> {ty} {{ let delay: f32 = 8.0; let duration: f32 = 4.0; let _ = (delay, duration); timeline!(P {text}) }}\n");
+        } else {
+            src += &format!("fn m_{i}() -> {ty} {{ timeline!(P {text}) }}\n");
+        }
         line += 1;
     }
     src += "\nfn main() {\n    let descs: Vec<Vec<TlDesc>> = serde_json::from_str(&std::fs::read_to_string(std::env::args().nth(1).unwrap()).unwrap()).unwrap();\n    let mut i = 0;\n";
